@@ -8,7 +8,7 @@ EXTENDS TraceBase, F64
 
 P == INSTANCE Piecewise
 
-TraceInit == l = 1
+TraceInit == TallyInit /\ l = 1
 
 TraceSelect ==
     /\ IsEvent("select")
